@@ -35,9 +35,11 @@ def bindParams (env : Env) : List Param → Env
 variable [Core.NameFilter]
 
 /-- one counted read; `...` of the main chunk is not an occurrence the lints speak about -/
-def sRead (inF : Bool) (env : Env) (t : Tok) : List Ans :=
+def sRead (inF : Bool) (env : Env) (t : Tok) (root : Bool := false) : List Ans :=
   if inF = false ∧ t.text = "..." then []
-  else if Core.NameFilter.read t.text then [.read t.idx (look env t.text)] else []
+  else if Core.NameFilter.read t.text then
+    [if root then .root t.idx (look env t.text) else .read t.idx (look env t.text)]
+  else []
 
 /-- a plain-name assignment target: it assigns a global when the name denotes no local -/
 def sAssign (env : Env) (t : Tok) : List Ans :=
@@ -101,6 +103,14 @@ def eV (inF : Bool) (env : Env) : Var → List Ans
   | .name t => sRead inF env t
   | .expr _ p ss => eP inF env p ++ eSs inF env ss
 end
+
+/-- indexed assignment targets: the root name is read as the table being indexed -/
+def ePT (inF : Bool) (env : Env) : Prefix → List Ans
+  | .name t => sRead inF env t true
+  | .expr e => eE inF env e
+def eVT (inF : Bool) (env : Env) : Var → List Ans
+  | .name t => sRead inF env t true
+  | .expr _ p ss => ePT inF env p ++ eSs inF env ss
 
 /-! ### closures inside expressions, statements, blocks -/
 mutual
@@ -183,7 +193,7 @@ def sTargets (inF : Bool) (env : Env) : VarList → ExprList → List Ans
       | .nil => []) ++
     (match v with
       | .name t => sAssign env t
-      | .expr _ _ _ => eV inF env v) ++
+      | .expr _ _ _ => eVT inF env v) ++
     sTargets inF env rest (match es with | .cons _ es' => es' | .nil => .nil)
 def sElifs (inF : Bool) (env : Env) : ElseIfList → List Ans
   | .nil => []
@@ -215,7 +225,7 @@ def sStmt (inF : Bool) (env : Env) : Stmt → List Ans × Env
     match name.names with
     | [] => ([], env)
     | base :: more =>
-      ((if (!more.isEmpty || name.method.isSome) = true then sRead inF env base else sAssign env base) ++
+      ((if (!more.isEmpty || name.method.isSome) = true then sRead inF env base true else sAssign env base) ++
         sBody env name.method body, env)
   | .localFunc _ name body =>
     let env' := bindTok env name name.text .localFunc
